@@ -271,7 +271,7 @@ impl Sys {
     }
 
     pub fn open_calls(&self) -> usize {
-        self.apis.iter().filter(|a| a.done.is_none()).count()
+        self.apis.iter().filter(|a| a.done.is_none() && !a.abandoned).count()
     }
 
     /* ------------------------------- stepping ------------------------------- */
